@@ -39,13 +39,25 @@ FamilyB ==
   {Msg("ats", "base", <<"q1">>, <<"appr1">>, <<"exec1">>, None2, Valid, p, i)
      : p \in 0..19, i \in UNION {Incs(k) : k \in 0..9}}
 
+\* Family C (list shapes): duplicates, one element, none, the base denomination among the convertible or the quote
+\* denominations, one account in both role lists - all coherent, so all accepted and stored as given
+FamilyC ==
+  {[name |-> "ats", base |-> "base", convs |-> cv, quotes |-> q, approvers |-> a, executors |-> e,
+    askfee_rate |-> NoDec, askfee_acct |-> NoStr, bidfee_rate |-> Valid[1], bidfee_acct |-> Some("bidfee1"),
+    askattrs |-> aa, bidattrs |-> ba, prec |-> 0, inc |-> 1]
+     : cv \in {<<>>, <<"cv1", "cv1">>, <<"base">>, <<"cv1", "cv2", "base">>},
+       q \in {<<"q1">>, <<"q1", "q1">>, <<"base">>, <<"q2", "q1">>},
+       a \in {<<>>, <<"appr1", "appr1">>, <<"appr1", "exec1">>},
+       e \in {<<"exec1", "exec1">>, <<"exec2", "exec1">>, <<"exec1", "appr1">>},
+       aa \in {<<>>, <<"kyc", "kyc">>, <<"kyc", "acc">>}, ba \in {<<>>, <<"kyc">>}}
+
 Envs == {[marker |-> <<>>, attrs |-> <<>>]}
 
 Init == /\ st = EmptyState
         /\ cenv \in Envs
         /\ act = NoAct
 
-DoInstantiate == ~st.cfg.set /\ \E m \in FamilyA \cup FamilyB : Step(RInstantiate(m))
+DoInstantiate == ~st.cfg.set /\ \E m \in FamilyA \cup FamilyB \cup FamilyC : Step(RInstantiate(m))
 DoQuery       == \E r \in {RQuery("query_cfg", ""), RQuery("query_ver", "")} : Step(r)
 \* requests before instantiation are refused
 DoEarly       == ~st.cfg.set /\ \E r \in {RReverse("cancel_ask", "seller1", NoFunds, "a1", NoSize), ModifyNothing("exec1"),
